@@ -316,6 +316,8 @@ type clause struct{ name, from, to string }
 
 var clauses = []clause{
 	{"no-split", ") split (\n    in  int      c,\n    out int      co,\n) using (", ") using ("},
+	{"empty-split", ") split (\n    in  int      c,\n    out int      co,\n) using (", ") split (\n) using ("},
+	{"empty-split-legacy", ") split (\n    in  int      c,\n    out int      co,\n) using (", ") split using (\n) using ("},
 	{"no-using", ") using (\n    mem_gb   = 4,\n    threads  = 2,\n    vmem_gb  = 8,\n    volatile = strict,\n    special  = \"hi\",\n) retain (", ") retain ("},
 	{"no-stage-retain", ") retain (\n    f,\n)\n", ")\n"},
 	{"no-pipeline-retain", "\n    retain (\n        S1.f,\n    )\n", ""},
